@@ -116,8 +116,11 @@ Proof.
     assert (Hu : 0 < frac_unit n) by (unfold frac_unit; apply Z.pow_pos_nonneg; lia).
     (* x = day * us_per_day + tod, us_per_day and us_per_sec are multiples of the unit *)
     assert (Ex : x = us + (x / us_per_day * 86400 * k + (tod / us_per_sec) * k) * frac_unit n).
-    { unfold us. pose proof (Z.div_mod tod us_per_sec ltac:(unfold us_per_sec; lia)).
-      assert (us_per_day = 86400 * us_per_sec) by reflexivity. nia. }
+    { pose proof (Z.div_mod tod us_per_sec ltac:(unfold us_per_sec; lia)) as Hds. fold us in Hds.
+      assert (Hpd : us_per_day = 86400 * us_per_sec) by reflexivity.
+      set (D := x / us_per_day) in *. set (S := tod / us_per_sec) in *. set (U := frac_unit n) in *.
+      assert (E1 : x = D * (86400 * (k * U)) + ((k * U) * S + us)) by (rewrite <- Hk, <- Hpd, <- Hds; exact Hxd).
+      rewrite E1 at 1. ring. }
     rewrite Ex in Hm. rewrite Z.mod_add in Hm by lia. exact Hm. }
   rewrite (clock_text_2 h mi se) by lia.
   assert (Hparse : forall rest v, parse_clock (32%N :: pad2 h ++ [58%N] ++ pad2 mi ++ [58%N] ++ pad2 se ++ rest) =
@@ -142,19 +145,22 @@ Proof.
       | dot :: fr => if (dot =? 46)%N then option_map (Z.add (h * 3600000000 + mi * 60000000 + se * us_per_sec)) (parse_frac fr) else None
       end = Some tv) -> tv = tod ->
      datetime_convert_text n (civil_text (y, m, d) ++ [32%N] ++ (pad2 h ++ [58%N] ++ pad2 mi ++ [58%N] ++ pad2 se) ++ rest) = Some x).
-  { intros rest tv Hrest Htv. unfold datetime_convert_text, parse_datetime_text, civil_text. rewrite Ey. unfold pad2 at 1 2. cbn [app].
+  { intros rest tv Hrest Htv. specialize (Hclock rest).
+    set (tl := 32%N :: (pad2 h ++ [58%N] ++ pad2 mi ++ [58%N] ++ pad2 se) ++ rest) in *.
+    assert (Htl : tl <> []) by (unfold tl; discriminate).
+    change ([32%N] ++ (pad2 h ++ [58%N] ++ pad2 mi ++ [58%N] ++ pad2 se) ++ rest) with tl.
+    unfold datetime_convert_text, parse_datetime_text, civil_text. rewrite Ey. unfold pad2. cbn [app].
     rewrite is_zero_text_false by (apply month_not_00; lia).
     rewrite !N.eqb_refl. cbn [andb]. rewrite E4, !d2_pad2 by lia. rewrite R2, R1.
-    change (32%N :: ?l ++ rest) with (32%N :: l ++ rest).
-    rewrite (Hclock rest), Hrest. cbn [option_map]. subst tv. rewrite <- Hxd.
+    destruct tl as [|t0 tl0] eqn:Etl; [contradiction|]. rewrite Hclock, Hrest. cbn [option_map]. subst tv. rewrite <- Hxd.
     replace (x =? zero_time_us) with false by (symmetry; now apply Z.eqb_neq).
     rewrite (round_us_id n x Hn Hm), Hr. reflexivity. }
   destruct n as [|n'].
   - (* no fraction *)
     assert (Hus0 : us = 0).
-    { unfold frac_unit in Husm. cbn in Husm. change (Z.pow_pos 10 6) with us_per_sec in Husm. rewrite Z.mod_small in Husm by lia. exact Husm. }
+    { assert (Hfu : frac_unit 0 = us_per_sec) by reflexivity. rewrite Hfu in Husm. rewrite Z.mod_small in Husm by exact Hus. exact Husm. }
     eexists. split; [reflexivity|]. split.
-    + cbn [frac_text]. apply (Hconv [] tod); [reflexivity|]. lia.
+    + cbn [frac_text]. apply (Hconv [] (h * 3600000000 + mi * 60000000 + se * us_per_sec)); [reflexivity|]. lia.
     + unfold civil_text. rewrite Ey. unfold pad2. cbn. reflexivity.
   - destruct (frac_roundtrip (S n') us ltac:(lia) Hus Husm) as (fr & Ef & Pf & Lf).
     eexists. split; [reflexivity|]. rewrite Ef. split.
@@ -171,3 +177,202 @@ Qed.
 
 Lemma datetime_len_le_announced n : (n <= 6)%nat -> Z.of_nat (datetime_text_len n) <= datetime_announced.
 Proof. intros H. unfold datetime_text_len, datetime_announced. destruct n; lia. Qed.
+
+(* ---------- TIME ---------- *)
+Lemma digit_char_not d : 0 <= d <= 9 -> (digit_char d =? 45)%N = false /\ (digit_char d =? 58)%N = false.
+Proof. intros H. unfold digit_char. split; apply N.eqb_neq; lia. Qed.
+
+Definition hour3_ok (h : Z) : bool :=
+  match format_int h with
+  | [a; b; c] =>
+      match digit_val a, d2 b c with
+      | Some x, Some y => (x * 100 + y =? h) && negb (a =? 45)%N && negb (c =? 58)%N
+      | _, _ => false
+      end
+  | _ => false
+  end.
+Lemma hour3_check : forallb hour3_ok (upto 900 100) = true.
+Proof. vm_compute. reflexivity. Qed.
+Lemma hour3 h : 100 <= h <= 999 -> exists a b c x y, format_int h = [a; b; c] /\ digit_val a = Some x /\ d2 b c = Some y /\
+  x * 100 + y = h /\ (a =? 45)%N = false /\ (c =? 58)%N = false.
+Proof.
+  intros H. pose proof hour3_check as E. rewrite forallb_forall in E.
+  specialize (E h (in_upto 900 100 h ltac:(lia))). unfold hour3_ok in E.
+  destruct (format_int h) as [|a [|b [|c [|]]]]; try discriminate.
+  destruct (digit_val a) as [x|] eqn:Dx; [|discriminate]. destruct (d2 b c) as [y|] eqn:Dy; [|discriminate].
+  apply andb_prop in E. destruct E as [E E3]. apply andb_prop in E. destruct E as [E1 E2].
+  apply Z.eqb_eq in E1. apply negb_true_iff in E2, E3.
+  exists a, b, c, x, y. repeat split; auto.
+Qed.
+
+Definition time_after_sign (neg : bool) (r : bytes) : option Z :=
+  match r with
+  | a :: b :: c :: rest =>
+      if (c =? 58)%N then match d2 a b with Some h => parse_time_tail neg h rest | None => None end
+      else match rest with
+           | d :: rest' =>
+               if (d =? 58)%N then
+                 match digit_val a, d2 b c with
+                 | Some x, Some y => parse_time_tail neg (x * 100 + y) rest'
+                 | _, _ => None end
+               else None
+           | [] => None
+           end
+  | _ => None
+  end.
+
+Lemma time_convert_sign (neg : bool) (c : N) (r : bytes) : (c =? 45)%N = false ->
+  time_convert_text ((if neg then [45%N] else []) ++ c :: r) = time_after_sign neg (c :: r).
+Proof.
+  intros H. destruct neg; cbn [app]; unfold time_convert_text.
+  - rewrite N.eqb_refl. reflexivity.
+  - rewrite H. reflexivity.
+Qed.
+
+Lemma time_tail neg h mi se us : 0 <= mi <= 59 -> 0 <= se <= 59 -> 0 <= us < us_per_sec ->
+  parse_time_tail neg h (pad2 mi ++ [58%N] ++ pad2 se ++ frac_text 6 us) = time_units neg h mi se us.
+Proof.
+  intros Hmi Hse Hus. unfold frac_text. change (frac_unit 6) with 1. rewrite Z.div_1_r.
+  destruct (padn_spec 6 us 0 ltac:(change (10 ^ Z.of_nat 6) with us_per_sec; lia)) as [P1 P2].
+  unfold pad2. cbn [app parse_time_tail]. rewrite N.eqb_refl, !d2_pad2 by lia.
+  rewrite N.eqb_refl, P2. cbn [andb Nat.eqb]. rewrite P1. reflexivity.
+Qed.
+
+Lemma padn_length n : forall v, length (padn n v) = n.
+Proof. induction n as [|n IH]; intros v; cbn [padn]; [reflexivity|]. rewrite app_length, IH. cbn. lia. Qed.
+
+Lemma time_tail' neg h mi se us : 0 <= mi <= 59 -> 0 <= se <= 59 -> 0 <= us < us_per_sec ->
+  parse_time_tail neg h ((pad2 mi ++ 58%N :: pad2 se) ++ frac_text 6 us) = time_units neg h mi se us.
+Proof. intros H1 H2 H3. rewrite <- (time_tail neg h mi se us H1 H2 H3). unfold pad2. reflexivity. Qed.
+
+Theorem time_text_roundtrip x : - time_max_us <= x <= time_max_us ->
+  time_convert_text (time_sql_text x) = Some x /\ Z.of_nat (length (time_sql_text x)) <= time_announced.
+Proof.
+  intros Hx. unfold time_sql_text, time_max_us in *. set (a := Z.abs x).
+  assert (Ha : 0 <= a <= 3020399000000) by (unfold a; lia).
+  destruct (tod_split a ltac:(lia)) as (Hsplit & Hmi & Hse & Hus).
+  set (h := a / 3600000000) in *. set (mi := a / 60000000 mod 60) in *.
+  set (se := a / us_per_sec mod 60) in *. set (us := a mod us_per_sec) in *.
+  assert (Hh : 0 <= h <= 838).
+  { unfold h. split; [apply Z.div_pos; lia|]. assert (a / 3600000000 < 839) by (apply Z.div_lt_upper_bound; lia). lia. }
+  assert (Hunits : time_units (x <? 0) h mi se us = Some x).
+  { unfold time_units, us_per_sec in *.
+    replace (60 <=? mi) with false by (symmetry; apply Z.leb_gt; lia).
+    replace (60 <=? se) with false by (symmetry; apply Z.leb_gt; lia). cbn [orb].
+    replace (838 <? h) with false by (symmetry; apply Z.ltb_ge; lia).
+    assert (Hlast : ((h =? 838) && (mi =? 59) && (se =? 59)) = true -> us = 0).
+    { intros E. apply andb_prop in E. destruct E as [E E3]. apply andb_prop in E. destruct E as [E1 E2].
+      apply Z.eqb_eq in E1, E2, E3. lia. }
+    destruct ((h =? 838) && (mi =? 59) && (se =? 59)) eqn:El.
+    - rewrite (Hlast eq_refl) in Hsplit. f_equal. unfold a in *. destruct (x <? 0) eqn:Es; [apply Z.ltb_lt in Es|apply Z.ltb_ge in Es]; lia.
+    - f_equal. unfold a in *. destruct (x <? 0) eqn:Es; [apply Z.ltb_lt in Es|apply Z.ltb_ge in Es]; lia. }
+  destruct (Z_le_gt_dec h 99) as [H99|H99].
+  - rewrite (clock_text_2 h mi se) by lia. unfold pad2 at 1. cbn [app].
+    destruct (digit_char_not (h / 10)) as [N45 _].
+    { split; [apply Z.div_pos; lia|]. assert (h / 10 < 10) by (apply Z.div_lt_upper_bound; lia). lia. }
+    split.
+    + rewrite time_convert_sign by exact N45. cbn [time_after_sign]. rewrite N.eqb_refl, d2_pad2 by lia.
+      rewrite time_tail' by lia. exact Hunits.
+    + unfold time_announced, pad2, frac_text. rewrite app_length. cbn [length app]. rewrite padn_length.
+      destruct (x <? 0); cbn [length]; lia.
+  - destruct (hour3 h ltac:(lia)) as (c1 & c2 & c3 & xh & yh & Ef & Dx & Dy & Eh & N45 & N58).
+    unfold clock_text. replace (h <? 10) with false by (symmetry; apply Z.ltb_ge; lia). rewrite Ef. cbn [app].
+    split.
+    + rewrite time_convert_sign by exact N45. cbn [time_after_sign]. rewrite N58, N.eqb_refl, Dx, Dy, Eh.
+      rewrite time_tail' by lia. exact Hunits.
+    + unfold time_announced, pad2, frac_text. rewrite app_length. cbn [length app]. rewrite padn_length.
+      destruct (x <? 0); cbn [length]; lia.
+Qed.
+
+(* ---------- SET ---------- *)
+Definition no_comma (x : bytes) : Prop := Forall (fun c => c <> 44%N) x.
+
+Lemma split_no_comma x : no_comma x -> forall cur rest, split_comma cur (x ++ rest) = split_comma (rev x ++ cur) rest.
+Proof.
+  induction 1 as [|c x Hc _ IH]; intros cur rest; [reflexivity|].
+  cbn [app split_comma rev]. replace (c =? 44)%N with false by (symmetry; now apply N.eqb_neq).
+  rewrite IH, <- app_assoc. reflexivity.
+Qed.
+
+Lemma split_join l : l <> [] -> Forall no_comma l -> split_comma [] (join_comma l) = l.
+Proof.
+  induction l as [|x l IH]; intros Hn Hf; [contradiction|]. inversion Hf as [|? ? Hx Hl]; subst.
+  destruct l as [|y r].
+  - cbn [join_comma]. rewrite <- (app_nil_r x) at 1. rewrite split_no_comma by exact Hx.
+    cbn [split_comma]. rewrite app_nil_r, rev_involutive. reflexivity.
+  - change (join_comma (x :: y :: r)) with (x ++ 44%N :: join_comma (y :: r)).
+    rewrite split_no_comma by exact Hx. cbn [split_comma]. rewrite N.eqb_refl, app_nil_r, rev_involutive.
+    rewrite IH by (auto; discriminate). reflexivity.
+Qed.
+
+Lemma index_of_app n pre r : ~ In n pre -> forall i, index_of n (pre ++ n :: r) i = Some (i + Z.of_nat (length pre)).
+Proof.
+  induction pre as [|p pre IH]; intros Hn i; cbn [app index_of length].
+  - replace (beqb n n) with true by (symmetry; now apply beqb_eq). f_equal. lia.
+  - destruct (beqb n p) eqn:E; [apply beqb_eq in E; exfalso; apply Hn; now left|].
+    rewrite IH by (intros C; apply Hn; now right). f_equal. lia.
+Qed.
+
+Lemma lor_disjoint_bit a k : 0 <= a -> 0 <= k -> Z.lor (a * 2 ^ (k + 1)) (2 ^ k) = a * 2 ^ (k + 1) + 2 ^ k.
+Proof.
+  intros Ha Hk.
+  assert (L : Z.land (a * 2 ^ (k + 1)) (2 ^ k) = 0).
+  { replace (a * 2 ^ (k + 1)) with (Z.shiftl (2 * a) k) by (rewrite Z.shiftl_mul_pow2, Z.pow_add_r by lia; ring).
+    replace (2 ^ k) with (Z.shiftl 1 k) by (rewrite Z.shiftl_mul_pow2 by lia; ring).
+    rewrite <- Z.shiftl_land. change 1 with (Z.ones 1) at 1. rewrite Z.land_ones by lia.
+    replace (2 * a) with (a * 2 ^ 1) by ring. rewrite Z.mod_mul by (cbn; lia). apply Z.shiftl_0_l. }
+  rewrite <- Z.lxor_lor by exact L. symmetry. now apply Z.add_nocarry_lxor.
+Qed.
+
+Lemma set_bits_members names : NoDup names -> Forall (fun n => n <> []) names ->
+  forall suf pre b, names = pre ++ suf -> 0 <= b < 2 ^ Z.of_nat (length suf) ->
+    set_bits_of names (set_members suf b) = Some (b * 2 ^ Z.of_nat (length pre)).
+Proof.
+  intros Hd Hne. induction suf as [|n r IH]; intros pre b Hnames Hb.
+  - cbn in *. f_equal. lia.
+  - cbn [set_members]. cbn [length] in Hb. rewrite pow2_S in Hb.
+    assert (Hq : 0 <= b / 2 < 2 ^ Z.of_nat (length r)) by (split; [apply Z.div_pos; lia|apply Z.div_lt_upper_bound; lia]).
+    assert (Hnames' : names = (pre ++ [n]) ++ r) by (rewrite <- app_assoc; exact Hnames).
+    specialize (IH (pre ++ [n]) (b / 2) Hnames' Hq). rewrite app_length in IH. cbn [length] in IH.
+    replace (Z.of_nat (length pre + 1)) with (Z.of_nat (length pre) + 1) in IH by lia.
+    set (k := Z.of_nat (length pre)) in *.
+    pose proof (Z.div_mod b 2 ltac:(lia)) as Hdm. rewrite Zmod_odd in Hdm.
+    destruct (Z.odd b).
+    + cbn [app set_bits_of]. rewrite IH.
+      assert (Hin : In n names) by (rewrite Hnames; apply in_or_app; right; now left).
+      rewrite Forall_forall in Hne. specialize (Hne n Hin).
+      destruct n as [|c0 n0] eqn:En; [contradiction|]. rewrite <- En in *.
+      assert (Hnp : ~ In n pre).
+      { rewrite Hnames in Hd. apply NoDup_remove_2 in Hd. intros C. apply Hd. apply in_or_app. now left. }
+      pose proof (index_of_app n pre r Hnp 0) as Ei. unfold bytes in *. rewrite Hnames at 1. rewrite Ei. fold k. rewrite Z.add_0_l.
+      rewrite lor_disjoint_bit by (unfold k; lia). f_equal. rewrite Z.pow_add_r by (unfold k; lia). lia.
+    + cbn [app]. rewrite IH. f_equal. rewrite Z.pow_add_r by (unfold k; lia). lia.
+Qed.
+
+Lemma set_members_props names : Forall (fun n => n <> [] /\ no_comma n) names ->
+  forall b, Forall (fun n => n <> [] /\ no_comma n) (set_members names b).
+Proof.
+  induction 1 as [|n r Hn _ IH]; intros b; cbn [set_members]; [constructor|].
+  apply Forall_app. split; [destruct (Z.odd b); repeat constructor; tauto|apply IH].
+Qed.
+
+Lemma join_nonempty l : Forall (fun n : bytes => n <> [] /\ no_comma n) l -> l <> [] -> join_comma l <> [].
+Proof.
+  intros H Hn. destruct l as [|x r]; [contradiction|]. inversion H as [|? ? [Hx _] _]; subst.
+  destruct r; cbn [join_comma]; [exact Hx|]. destruct x; [contradiction|discriminate].
+Qed.
+
+Theorem set_text_roundtrip names b :
+  NoDup names -> Forall (fun n => n <> [] /\ no_comma n) names -> 0 <= b < 2 ^ Z.of_nat (length names) ->
+  set_convert_text names (set_sql_text names b) = Some b.
+Proof.
+  intros Hd Hf Hb. unfold set_convert_text, set_sql_text.
+  pose proof (set_members_props names Hf b) as Hm.
+  assert (Hne : Forall (fun n : bytes => n <> []) names) by (eapply Forall_impl; [|exact Hf]; cbn; tauto).
+  pose proof (set_bits_members names Hd Hne names [] b eq_refl Hb) as Hbits. cbn [length] in Hbits. rewrite Z.mul_1_r in Hbits.
+  destruct (set_members names b) as [|m ms] eqn:Em.
+  - cbn [join_comma]. cbn in Hbits. exact Hbits.
+  - pose proof (join_nonempty (m :: ms) Hm ltac:(discriminate)) as Hj.
+    destruct (join_comma (m :: ms)) as [|c0 j0] eqn:Ej; [contradiction|]. rewrite <- Ej.
+    rewrite split_join; [exact Hbits|discriminate|]. eapply Forall_impl; [|exact Hm]. cbn. tauto.
+Qed.
